@@ -148,7 +148,37 @@ def r5_closures_over_loop_locals(ctx):
     same_frame = "ast.While(test=ast.Constant(True), body=loop_body_ast, orelse=[])" in txt and "ast_FunctionDef(" not in txt and "_fn_node(" not in txt
     fa = ctx.fn_opt(GEN, "__fn_args_to_py_ast")
     captures = fa is not None and ("defaults=" in P.un(fa) and "LocalType.LOOP" in P.un(fa))
-    ok = not same_frame or captures
+    # ... or a fn generated in a loop body is defined inside a factory that is called, on the spot,
+    # with the current values of the fn's free locals (each iteration then has its own cells)
+    factory = False
+    ftp = ctx.fn_opt(GEN, "_fn_to_py_ast")
+    gtree = ctx.py(GEN)
+    gc_cls = P.find_def(gtree, "GeneratorContext")
+    in_loop = P.methods(gc_cls).get("is_in_loop") if gc_cls is not None else None
+    if ftp is not None and in_loop is not None:
+        routed = [i for i in ast.walk(ftp) if isinstance(i, ast.If) and "ctx.is_in_loop" in P.un(i.test)
+                  and any(isinstance(r, ast.Return) and isinstance(r.value, ast.Call) for s in i.body for r in ast.walk(s))]
+        top_is_loop = "self._recur_points[-1].type == RecurType.LOOP" in P.un(in_loop)
+        for i in routed:
+            call = next(r.value for s in i.body for r in ast.walk(s) if isinstance(r, ast.Return) and isinstance(r.value, ast.Call))
+            h = P.find_def(gtree, P.un(call.func))
+            if h is None:
+                continue
+            ht = P.un(h)
+            kinds_ok = "LocalType.LOOP" in ht and "LocalType.LET" in ht and "local_python_names(" in ht
+            fparam = h.args.args[1].arg if len(h.args.args) > 1 else "fn_ast"
+            wraps = any(isinstance(c, ast.Call) and P.un(c.func) in ("ast_FunctionDef", "ast.FunctionDef") for c in ast.walk(h)) \
+                and any(isinstance(c, ast.Call) and P.un(c.func) == "ast.Return" and any(P.un(k.value) == f"{fparam}.node" for k in c.keywords) for c in ast.walk(h)) \
+                and f"{fparam}.dependencies" in ht
+            # the factory's parameters and the arguments of its call are built from one and the same collection of names
+            comps = [lc for lc in ast.walk(h) if isinstance(lc, ast.ListComp) and len(lc.generators) == 1 and isinstance(lc.elt, ast.Call)]
+            arg_iters = {P.un(lc.generators[0].iter) for lc in comps if P.un(lc.elt.func) == "ast.arg"}
+            val_iters = {P.un(lc.generators[0].iter) for lc in comps if P.un(lc.elt.func) == "ast.Name" and any(k.arg == "ctx" and "Load" in P.un(k.value) for k in lc.elt.keywords)}
+            passes = bool(arg_iters & val_iters) and any(isinstance(c, ast.Call) and P.un(c.func) == "ast.Call" for c in ast.walk(h))
+            # ... which is what the fn actually reads (Name loads) among the locals of the enclosing frames
+            free = "ast.Load" in ht and any(isinstance(b, ast.BinOp) and isinstance(b.op, ast.BitAnd) for b in ast.walk(h))
+            factory = factory or (top_is_loop and kinds_ok and wraps and passes and free)
+    ok = not same_frame or captures or factory
     ctx.ob("C01.R5", f"{GEN}::_loop_to_py_ast::loop locals rebound in one frame are visible to closures", GEN, lp.lineno, ok,
            "" if ok else "closures created in a loop body capture the loop variable, not its value: after recur they all see the last value",
            witness="(loop [i 0 fs []] (if (< i 3) (recur (inc i) (conj fs (fn [] i))) (mapv #(%) fs))) => [3 3 3], the language prescribes [0 1 2]")
@@ -366,6 +396,14 @@ def r11_every_top_level_form_yields_a_value(ctx):
 
 
 SELFTEST = [
+    {"name": "fns created in a loop body are plain closures again (the repaired defect)", "file": GEN, "expect": "C01.R5",
+     "old": "    if def_name is None and ctx.is_in_loop:\n        return __fn_closed_over_current_locals(ctx, fn_ast)\n", "new": ""},
+    {"name": "the factory is called without the current values", "file": GEN, "expect": "C01.R5",
+     "old": "            args=[ast.Name(id=name, ctx=ast.Load()) for name in captured],\n            keywords=[],", "new": "            args=[],\n            keywords=[],"},
+    {"name": "loop locals are not among the captured kinds", "file": GEN, "expect": "C01.R5",
+     "old": "        frozenset({LocalType.LET, LocalType.LOOP, LocalType.CATCH})\n", "new": "        frozenset({LocalType.LET, LocalType.CATCH})\n"},
+    {"name": "twin: captured names held in a differently named local", "file": GEN, "expect": None, "count": "all",
+     "old": "captured", "new": "free_locals"},
     {"name": "a top-level (do) compiles no form (the repaired defect)", "file": COMPILER, "expect": "C01.R11",
      "old": "    unrolled_forms = list(_flatmap_forms([form])) or [form]\n", "new": "    unrolled_forms = list(_flatmap_forms([form]))\n"},
     {"name": "let* init analyzed in the parent's position (the repaired defect)", "file": ANA, "expect": "C01.R9", "nth": 0,
